@@ -5,8 +5,8 @@ fails; (3) demo without patch passes.  On success stores it under /verif/seeded/
 import json, os, shutil, subprocess, sys, time
 prop, k, demo_cmd = sys.argv[1], sys.argv[2], sys.argv[3]
 name = sys.argv[4] if len(sys.argv) > 4 else k
-wt = '/tmp/seed-%s' % prop
-src = '/tmp/seed-%s-out/%s' % (prop, k)
+wt = os.environ.get('SEED_WT', '/tmp/seed-%s' % prop)
+src = os.environ.get('SEED_SRC', '/tmp/seed-%s-out' % prop) + '/' + k
 
 def sh(cmd, check=False):
     p = subprocess.run(cmd, shell=True, cwd=wt, capture_output=True, text=True)
